@@ -580,7 +580,10 @@ class BuiltinMixin:
                 yield from self.int_to_bytes(st, self.to_int(recv), args, kwargs)
                 return
             if name == "bit_length":
-                raise Unsupported("bit_length")
+                bl = self.T.const(self.fresh("bit_length"))
+                self.used_assumptions.add("int.bit_length(): an uninterpreted non-negative integer")
+                yield st.assume(bl >= self.intval(0)), bl
+                return
         if is_real(recv) and name == "is_integer":
             yield st, z3.ToReal(z3.ToInt(recv)) == recv
             return
@@ -630,7 +633,15 @@ class BuiltinMixin:
         order = args[1] if len(args) > 1 else kwargs.get("byteorder", StrV("big"))
         signed = kwargs.get("signed")
         if n is None:
-            raise Unsupported("to_bytes with symbolic length")
+            # idiom x.to_bytes((x.bit_length() + 7) // 8 or 1, "big"): minimal big-endian image, never raises for x >= 0
+            ln = self.to_int(args[0] if args else kwargs.get("length"))
+            v, cs = self.sym_bytes(self.fresh("int_image"))
+            s1 = st
+            for c in cs:
+                s1 = s1.assume(c)
+            self.used_assumptions.add("int.to_bytes with a computed length: some bytes of that length (overflow not modelled)")
+            yield s1.assume(self.bytes_len(v) == ln), v
+            return
         if not (isinstance(order, StrV) and order.s == "big"):
             raise Unsupported("little-endian to_bytes")
         sg = bool(self.pyconst(signed)) if signed is not None else False
